@@ -27,7 +27,8 @@ def gen_layout(rng, allow_cov=True, max_ens=3):
     cov = None
     if allow_cov and rng.random() < 0.3:
         cov = rng.choice(["covA", "sys_b", "Zc"])
-    return {"chains": chains, "cov": cov, "mag": rng.choice(MAGS), "reweighted": rng.random() < 0.2}
+    return {"chains": chains, "cov": cov, "mag": rng.choice(MAGS), "reweighted": rng.random() < 0.2,
+            "nonlinear": rng.random() < 0.35}      # a non-linear function: replica means differ from the central value even for one replica
 
 
 def gen_struct(rng, depth=0, kinds=("obs", "obs", "list", "array", "corr", "corr")):
@@ -96,6 +97,10 @@ def member(layout, seed, tagidx=0):
         co = pe.cov_Obs(cd["means"] if cd["dim"] > 1 else cd["means"][0], np.array(cd["cov"]) if cd["dim"] > 1 else cd["cov"][0][0], layout["cov"])
         co = co if isinstance(co, pe.Obs) else co[rnd.randrange(cd["dim"])]
         tot = tot + (mag * rnd.choice([1.0, 0.25])) * co
+    if layout.get("nonlinear"):
+        tot = tot * tot / mag if abs(mag) < 1e100 else tot
+        # an observable whose central value is not the mean of its samples (as after import_jackknife of a non-linear function)
+        tot._value = tot.value * (1.0 + 1e-3)
     tot.reweighted = bool(layout["reweighted"])
     tot.tag = TAGS[tagidx]
     return tot
@@ -217,7 +222,9 @@ def diff(a, b, path="", tol=64 * np.finfo(float).eps, check_tag=True, check_rw=T
             for n in a["idl"]:
                 if a["idl"][n] != b["idl"].get(n):
                     return path + ": idl[%s] %s vs %s" % (n, _short(a["idl"][n]), _short(b["idl"].get(n)))
-        sc = abs(a["value"]) + max([float(np.max(np.abs(d))) if len(d) else 0.0 for d in a["deltas"].values()] + [0.0]) + 1e-300
+        # json / dobs store delta + (r_value - value): the representable precision is set by the largest of these magnitudes
+        sc = abs(a["value"]) + max([float(np.max(np.abs(d))) if len(d) else 0.0 for d in a["deltas"].values()] + [0.0]) \
+            + max([abs(r - a["value"]) for r in a["r_values"].values()] + [0.0]) + 1e-300
         t = 0.0 if exact else tol * sc
         if not (abs(a["value"] - b["value"]) <= t):
             return path + ": value %.17g vs %.17g" % (a["value"], b["value"])
